@@ -42,7 +42,7 @@ CLAIMED = {
  'C15': ('5/C15, 10.6', 'App::run (bin/src/main.rs) executed from its MIR on an App value whose ten semantics flags are solver variables: every feasible flag combination is one path in each of the three library modes; the text written to stdout (real print! of the real PrintableInterpretation) is compared per path with what the definitions prescribe for the input file (grounded first, complete models as a set, then one copy of the stable models per stable-model flag, two-valued models for --twoval); well-formed input must not panic, malformed input must panic and print nothing; --lx/--an and --heu with fewer symbolic flags. A flag the code never reads on the flag-free path is reported through the single-flag invocation of the real binary.',
          'clap argument parsing is NOT executed: the harness constructs the parsed App; the real binary (real clap) is invoked once per mode with every single flag, --heu value and sorting flag, and judged like a replayed counterexample. core::fmt / std::fs / env_logger are stubs (mirse/models_cli.py), biodivine_lib_bdd is its contract model. Bounded: 2-6 concrete input files with 2-3 statements (the semantics on all small ADFs are C01-C05, the syntax C08/C09); OUTSIDE: --import/--export/--counter, verbosity, exit codes beyond panic / no panic. 4 known findings (flags silently ignored with --lib biodivine) are listed in known_findings.json; the same defect in the naive mode was repaired'),
  'C06': ('5/C06', 'scripts of diagram operations executed symbolically on one store; after every step z3 decides the structural invariants (reduced, ordered, duplicate-free, unique table <-> node table) and handle-equality <=> function-equality for all issued handles.',
-         'std HashMap/HashSet/Vec under models; all functions of 2 variables, seeded 3/4-variable families, histories of length 2-3 incl. node-list re-import'),
+         'std HashMap/HashSet/Vec under models; all functions of 2 variables, seeded 3/4-variable families, histories of length 2-3 incl. node-list re-import. Bridged stores: hybrid_step() / hybrid_step_opt(false) executed on symbolic biodivine diagrams (contract model) for all two-statement ADFs and seeded three-statement families - invariants, same handle <=> same function, roots denote the submitted conditions; plus per-instance validation with the real biodivine library'),
  'C07': ('5/C07', 'same symbolic runs as C06; per step z3 decides for every assignment that the result table equals the connective / cofactor of the operand tables and that the node-table prefix is unchanged.',
          'as C06'),
 }
